@@ -270,7 +270,12 @@ class GarbageCollector:
         except Exception as e:
             raise _MarkerUnreadable(str(e)) from e
         if not raw.strip():
-            return fallback  # legacy marker without payload: name convention
+            # Legacy marker without payload: "<data file basename>.inflight"
+            # protects data/<basename>. An empty marker that names no existing
+            # file that way is not a legacy marker but a damaged one.
+            if self.storage.exists(fallback):
+                return fallback
+            raise _MarkerUnreadable("empty payload and no data file of the marker's name")
         try:
             payload = json.loads(raw.decode("utf-8"))
             target = payload.get("file_path")
